@@ -270,3 +270,70 @@ void h_b_createKeySwitchKey(void) {
     VERIF_REACH();
 }
 #endif
+
+/* ---------------- C03: TLWE encryption / phase / decryption wiring.  The ring products (torusPolynomialAddMulR / SubMulR = FFT) are
+ * monitors: with the ASSUMED contract "they equal the exact negacyclic multiply-accumulate" the wiring below is b = sum a_i*s_i + e + m and
+ * phase = b - sum a_i*s_i, decryption = coefficient-wise rounding of the phase. ---------------- */
+#ifdef H_TLWE_ENC
+static int s_zero, seq; static TLweSample *z_r; static double z_alpha; static const TLweKey *z_k;
+void tLweSymEncryptZero(TLweSample *result, double alpha, const TLweKey *key) { z_r = result; z_alpha = alpha; z_k = key; s_zero = ++seq; }
+#include "extracted.inc"
+void h_tLweSymEncrypt(void) {
+    int32_t N; __CPROVER_assume(N >= 1 && N <= VERIF_NMAX);
+    TLweParams tp; *(int32_t *)&tp.N = N; TLweKey key; key.params = &tp;
+    TorusPolynomial bp; bp.coefsT = verif_alloc((size_t)N * sizeof(Torus32)); TLweSample res; res.b = &bp;
+    TorusPolynomial msg; msg.coefsT = verif_alloc((size_t)N * sizeof(Torus32));
+    double in_alpha; __CPROVER_assume(in_alpha >= 0.0 && in_alpha <= 1.0);
+    int32_t gk; __CPROVER_assume(gk >= 0 && gk < N); g_k = gk; Torus32 b0 = bp.coefsT[g_k], m0 = msg.coefsT[g_k], b00 = bp.coefsT[0];
+    seq = 0;
+#ifdef ENC_T
+    Torus32 in_m;
+    tLweSymEncryptT(&res, in_m, in_alpha, &key);
+    __CPROVER_assert(s_zero == 1 && z_r == &res && z_alpha == in_alpha && z_k == &key, "an encryption of zero with the requested noise level first");
+    __CPROVER_assert(U32(bp.coefsT[g_k]) == U32(b0) + (g_k == 0 ? U32(in_m) : 0u), "then the constant message is added to coefficient 0 of b only");
+#else
+    tLweSymEncrypt(&res, &msg, in_alpha, &key);
+    __CPROVER_assert(s_zero == 1 && z_r == &res && z_alpha == in_alpha && z_k == &key, "an encryption of zero with the requested noise level first");
+    __CPROVER_assert(U32(bp.coefsT[g_k]) == U32(b0) + U32(m0), "then the message polynomial is added to b, coefficient by coefficient");
+    __CPROVER_assert(msg.coefsT[g_k] == m0, "message untouched");
+#endif
+    free(bp.coefsT); free(msg.coefsT);
+    VERIF_REACH();
+}
+#endif
+
+#ifdef H_TLWE_PHASE
+static int s_copy, n_sub, bad, seq; static TorusPolynomial *c_r; static const TorusPolynomial *c_s; static const TLweSample *p_s; static const TLweKey *p_k; static TorusPolynomial *p_ph;
+void torusPolynomialCopy(TorusPolynomial *result, const TorusPolynomial *sample) { c_r = result; c_s = sample; s_copy = ++seq; if (n_sub != 0) bad++; }
+void torusPolynomialSubMulRFFT(TorusPolynomial *result, const IntPolynomial *poly1, const TorusPolynomial *poly2) {
+    if (result != p_ph || poly1 != &p_k->key[n_sub] || poly2 != &p_s->a[n_sub] || s_copy != 1) bad++; n_sub++; }
+/* approxPhase as a function known only on the watched value (one-point uninterpreted function) */
+static Torus32 w_in, w_out; static int32_t w_M; static int n_ap, ap_bad;
+Torus32 approxPhase(Torus32 phase, int32_t Msize) { n_ap++; if (Msize != w_M) ap_bad++; Torus32 r; if (phase == w_in) r = w_out; return r; }
+static int n_new, n_del; static TorusPolynomial *g_tmp;
+TorusPolynomial *new_TorusPolynomial(const int32_t N) { g_tmp = verif_alloc(sizeof(TorusPolynomial)); g_tmp->coefsT = verif_alloc((size_t)N * sizeof(Torus32)); n_new++; return g_tmp; }
+void delete_TorusPolynomial(TorusPolynomial *obj) { if (obj != g_tmp) bad++; n_del++; free(obj->coefsT); free(obj); }
+#include "extracted.inc"
+void h_tLwePhase(void) {
+    int32_t k; __CPROVER_assume(k >= 1 && k <= 64);
+    TLweParams tp; *(int32_t *)&tp.k = k; TLweKey key; key.params = &tp; key.key = verif_alloc((size_t)k * sizeof(IntPolynomial));
+    TLweSample s; s.a = verif_alloc((size_t)(k + 1) * sizeof(TorusPolynomial)); s.b = s.a + k; TorusPolynomial ph;
+    p_s = &s; p_k = &key; p_ph = &ph; s_copy = n_sub = bad = seq = 0;
+    tLwePhase(&ph, &s, &key);
+    __CPROVER_assert(s_copy == 1 && c_r == &ph && c_s == s.b, "phase starts as b");
+    __CPROVER_assert(n_sub == k && bad == 0, "then a_i * s_i is subtracted once for every i < k, with the i-th key polynomial and the i-th mask polynomial");
+    free(s.a); free(key.key);
+    VERIF_REACH();
+}
+void h_tLweApproxPhase(void) {
+    int32_t N; __CPROVER_assume(N >= 1 && N <= VERIF_NMAX);
+    TorusPolynomial ph, msg; ph.coefsT = verif_alloc((size_t)N * sizeof(Torus32)); msg.coefsT = verif_alloc((size_t)N * sizeof(Torus32));
+    int32_t gk; __CPROVER_assume(gk >= 0 && gk < N); g_k = gk; int32_t in_M; __CPROVER_assume(in_M >= 2);
+    Torus32 out; w_in = ph.coefsT[g_k]; w_out = out; w_M = in_M; n_ap = ap_bad = 0;
+    tLweApproxPhase(&msg, &ph, in_M, N);
+    __CPROVER_assert(msg.coefsT[g_k] == w_out && ap_bad == 0, "every coefficient of the message is the rounding of the same coefficient of the phase to the grid 1/Msize");
+    __CPROVER_assert(ph.coefsT[g_k] == w_in, "phase untouched");
+    free(ph.coefsT); free(msg.coefsT);
+    VERIF_REACH();
+}
+#endif
